@@ -144,6 +144,9 @@ func (c *checker) writeEvidence(wall time.Duration, code int) {
 	}
 	data, _ := json.MarshalIndent(ev, "", " ")
 	dir := filepath.Join(c.verif, "evidence")
+	if d := os.Getenv("VERIF_EVIDENCE_DIR"); d != "" {
+		dir = d // runs against seeded / mutated scratch trees keep /verif/evidence untouched
+	}
 	os.MkdirAll(dir, 0o755)
 	if err := os.WriteFile(filepath.Join(dir, c.prop.ID+".json"), data, 0o644); err != nil {
 		fmt.Fprintln(os.Stderr, "cannot write evidence:", err)
